@@ -53,7 +53,10 @@ fn check(t: &mut Tally, p: &str, names: &[String]) {
         }
     };
     let pc: Vec<char> = p.chars().collect();
-    for n in names {
+    // every pool name, plus the pattern's own text used as a name (a bracket set
+    // does not match its own spelling)
+    let own = [p.to_string()];
+    for n in names.iter().chain(own.iter()) {
         t.evals += 1;
         t.validated += 1;
         let want = match &toks {
@@ -178,7 +181,7 @@ fn main() {
     run.assume("glob subset: no '**', at most 3 '*', no '^', no reversed ranges, no ']' '-' '!' as set members (statement domain)");
     run.assume("reference glob matcher: mc/core/src/model/glob.rs");
 
-    let n = run.pick(3, 4);
+    let n = run.pick(4, 4);
     let names = all_names(4);
     run.bound(format!(
         "{} patterns of <= {} tokens (minus those with '**' or more than 3 '*') x {} names",
